@@ -21,13 +21,13 @@ type c13Desc struct {
 }
 
 type refStats struct {
-	Version                                          uint64
-	Roots                                            [][]byte
-	RootsPresent                                     bool
-	BlockCount                                       uint64
+	Version                                              uint64
+	Roots                                                [][]byte
+	RootsPresent                                         bool
+	BlockCount                                           uint64
 	MinCid, AvgCid, MaxCid, MinBlock, AvgBlock, MaxBlock uint64
-	Codecs, MhTypes                                  map[uint64]uint64
-	IndexCodec                                       uint64
+	Codecs, MhTypes                                      map[uint64]uint64
+	IndexCodec                                           uint64
 }
 
 func c13RefStats(a *refcar.Archive) refStats {
@@ -428,12 +428,12 @@ func genC13(g *mon.G) {
 
 func init() {
 	Register(&mon.Check{
-		ID:    "C13",
-		Level: "exploration",
-		Rule: "cases = seeded valid archives in 5 container forms: (valid) Inspect(true|false) under default limits and limits exactly at / one below the largest section and the header, all Stats fields compared with a reference scan; (typed) 40 typed corruptions per archive with a by-construction verdict; (random) 60 random mutations of the section region per archive, Inspect(true) vs BlockReader scan, disagreements adjudicated by the reference",
+		ID:          "C13",
+		Level:       "exploration",
+		Rule:        "cases = seeded valid archives in 5 container forms: (valid) Inspect(true|false) under default limits and limits exactly at / one below the largest section and the header, all Stats fields compared with a reference scan; (typed) 40 typed corruptions per archive with a by-construction verdict; (random) 60 random mutations of the section region per archive, Inspect(true) vs BlockReader scan, disagreements adjudicated by the reference",
 		Assumptions: []string{"reference scan (refcar) computes the expected statistics", "random family restricted to the section region so that CBOR-header leniency cannot cause false alarms"},
-		Gen:   genC13,
-		Run:   runC13,
-		MinCover: map[string]int{"valid-accepted": 300, "limit-rejected": 100, "typed:flip-in-data-or-digest": 100, "typed:index-offset-past-end": 10, "typed:unknown-hash-function": 10, "typed:appended-valid-section": 10, "random:agree": 500, "random:both-accept": 5},
+		Gen:         genC13,
+		Run:         runC13,
+		MinCover:    map[string]int{"valid-accepted": 300, "limit-rejected": 100, "typed:flip-in-data-or-digest": 100, "typed:index-offset-past-end": 10, "typed:unknown-hash-function": 10, "typed:appended-valid-section": 10, "random:agree": 500, "random:both-accept": 5},
 	})
 }
